@@ -75,6 +75,46 @@ def compile_template(ct, fname='vf', backend='default', vectorize=True, step_siz
             shutil.rmtree(wd, ignore_errors=True)
 
 
+def capture_run(ct, fname_hint='vf', **run_kw):
+    """Compiled for the function that CircuitTemplate.run hands to the integrator: the real run() is executed with
+    BaseBackend._solve replaced by a stub that records (func, args, emitted source) and returns zeros."""
+    import pyrates.backend.base.base_backend as bb
+    cap = {}
+
+    def stub(self, solver, func, args, T, dt, dts, y0, t0, times, **kw):
+        steps = int(np.round(T / dts))
+        ny = int(np.size(y0))
+        names = func.__code__.co_varnames[:func.__code__.co_argcount]
+        path = func.__code__.co_filename
+        cap.update(func=func, args=(t0, np.array(y0, copy=True)) + tuple(args), keys=tuple(names),
+                   src=open(path).read() if os.path.exists(path) else '', T=T, dt=dt, dts=dts)
+        return np.zeros((steps, ny))
+    orig = bb.BaseBackend._solve
+    bb.BaseBackend._solve = stub
+    wd = scratch_dir()
+    old = os.getcwd()
+    os.chdir(wd)
+    try:
+        kwargs = dict(verbose=False, float_precision='float64', in_place=False, clear=False)
+        kwargs.update(run_kw)
+        with warnings.catch_warnings():
+            warnings.simplefilter('ignore')
+            try:
+                ct.run(**kwargs)
+            except Exception as e:      # noqa
+                raise CompileError(e)
+        if 'func' not in cap:
+            raise CompileError(RuntimeError('run() never reached the integrator'))
+        c = Compiled(cap['func'], cap['args'], cap['keys'], {}, cap['src'], cap['func'].__name__, 'default', wd)
+        ny = int(np.asarray(tv_to_np(c.args[1])).size)
+        c.smap = {f"__pos{j}": j for j in range(ny)}
+        return c
+    finally:
+        bb.BaseBackend._solve = orig
+        os.chdir(old)
+        shutil.rmtree(wd, ignore_errors=True)
+
+
 # ---------------------------------------------------------------------------------------------
 # fingerprint binding
 # ---------------------------------------------------------------------------------------------
